@@ -64,8 +64,41 @@ def _env_set(env: Env, k: str, v: Optional[bool]) -> Env:
 State = Tuple[int, Env, int]
 
 
+def _event_recv(cfg: CFG, node: Node, attrs) -> Optional[Tuple[str, str]]:
+    """(receiver path, method) if node is / tests `<recv>.<method>()` for a tracked event."""
+    a = node.meta.get('test') if node.kind == 'branch' else node.ast
+    if isinstance(a, ast.Call) and isinstance(a.func, ast.Attribute) and not a.args:
+        rp = cfg.res.path(a.func.value)
+        if rp in attrs:
+            return rp, a.func.attr
+    return None
+
+
 def _step(cfg: CFG, flags: Set[str], node: Node, env: Env, e: Edge) -> Optional[Env]:
     """Environment after taking edge *e* out of *node*, or None if infeasible."""
+    ev = cfg.__dict__.get('event_flags')
+    if ev:
+        # loop-owned asyncio.Event objects: state known between an explicit
+        # set()/clear() and the next suspension point (atomic section)
+        if node.suspends:
+            for k in ev:
+                if _env_get(env, '@' + k) is not None:
+                    env = _env_set(env, '@' + k, None)
+        if node.kind == 'call' and e.label != 'exc':
+            rm = _event_recv(cfg, node, ev)
+            if rm and rm[1] in ('set', 'clear'):
+                env = _env_set(env, '@' + rm[0], rm[1] == 'set')
+            elif rm is None:
+                info = node.meta.get('callee')
+                if info and info.get('kind') in ('package', 'user', 'unknown', 'method') and \
+                        not (isinstance(node.ast.func, ast.Attribute) and cfg.res.path(node.ast.func.value) in ev):
+                    pass
+        if node.kind == 'branch' and e.label in ('true', 'false'):
+            rm = _event_recv(cfg, node, ev)
+            if rm and rm[1] == 'is_set':
+                val = _env_get(env, '@' + rm[0])
+                if val is not None and val != (e.label == 'true'):
+                    return None
     if node.kind == 'branch' and e.label in ('true', 'false') and flags:
         ft = _flag_test(node.meta['test'], flags)
         if ft is not None:
